@@ -70,6 +70,7 @@ type fullReq struct {
 }
 
 type fullSim struct {
+	shutCtxDone    bool // Shutdown is called with a context that is already done
 	r              *simkit.Run
 	prop           string
 	cfg            fullCfg
@@ -149,7 +150,7 @@ func fullConfig(tp *simkit.Tape, prop string) fullCfg {
 	}
 	c.Steps = tp.Range(6, 40)
 	c.Faults = tp.Chance(2, 3) || prop == "C05"
-	c.Partial = c.Faults && c.Signal != "metrics" && c.Signal != "profiles" && tp.Chance(1, 2)
+	c.Partial = c.Faults && c.Signal != "profiles" && tp.Chance(1, 2)
 	c.Wait = !c.Persistent && tp.Chance(1, 4)
 	c.Shape = []string{"plain", "wrapped", "joined"}[tp.Weighted(2, 1, 1)]
 	if !c.Persistent && c.Batch != "queue" && prop != "C05" && tp.Chance(1, 6) {
@@ -235,6 +236,7 @@ func runFull(r *simkit.Run, prop string) {
 	queuebatch.VerifResetPools()
 	start := time.Now()
 	s := &fullSim{r: r, prop: prop, cfg: cfg, ad: adapterByName(cfg.Signal), ids: &gen.IDs{Prefix: "i"}, tel: componenttest.NewTelemetry(), disk: NewDisk()}
+	s.shutCtxDone = r.Tape.Chance(1, 5)
 	s.be = newBackend(s.ad, func() int64 { return time.Now().UnixNano() })
 	s.be.evNow = func() int { return r.Events }
 	s.yg = simkit.NewGate()
@@ -471,7 +473,16 @@ func (s *fullSim) fireShutdown() {
 			q.beforeShutdown = true
 		}
 	}
-	s.shut = simkit.Go("shutdown", func(t *simkit.Task) { t.Err = s.exp.Shutdown(context.Background()) })
+	// the context handed to Shutdown may be over already (a shutdown budget used up by the components stopped before
+	// this one): what Shutdown guarantees when it returns does not depend on it
+	ctx := context.Background()
+	if s.shutCtxDone {
+		s.r.Count("fault.shutdown_with_done_context")
+		c, cancel := context.WithCancel(ctx)
+		cancel()
+		ctx = c
+	}
+	s.shut = simkit.Go("shutdown", func(t *simkit.Task) { t.Err = s.exp.Shutdown(ctx) })
 }
 
 func (s *fullSim) observe(ev string) {
